@@ -423,6 +423,28 @@ where
 	b.key = Some(key);
 }
 
+/// the root collection consumed by its by-value iterator: every member comes out once, in declared order
+fn run_into_iter<T>(b: &mut Builder, d: &mut String, half: bool, out: &mut Vec<String>)
+where
+	T: VT + IntoIterator,
+	T::Item: LockableIntoInner,
+	<T::Item as LockableIntoInner>::Inner: Toks,
+{
+	let t = T::build(b, d);
+	let mut it = t.into_iter();
+	if half {
+		// only the first member is taken; the iterator is dropped with the rest inside it
+		if let Some(x) = it.next() {
+			x.into_inner().toks(out);
+		}
+		drop(it);
+	} else {
+		for x in it {
+			x.into_inner().toks(out);
+		}
+	}
+}
+
 fn run_get_mut<T>(b: &mut Builder, d: &mut String, wpos: Option<usize>, out: &mut Vec<String>)
 where
 	T: VT + LockableGetMut + LockableIntoInner,
@@ -447,10 +469,15 @@ type Rt<T> = RetryingLockCollection<T>;
 
 /// the table of types; `gm` marks the ones that implement LockableGetMut (no boxed collection inside)
 macro_rules! table {
-	($( $idx:literal $gm:ident $ty:ty ; )*) => {
+	($( $idx:literal $gm:ident $it:ident $ty:ty ; )*) => {
 		fn dispatch(ty: usize, b: &mut Builder, d: &mut String, path: &str, wpos: Option<usize>, out: &mut Vec<String>) {
 			match ty {
-				$( $idx => { if path == "get_mut" { gm_case!($gm, $ty, b, d, wpos, out) } else { run_path::<$ty>(b, d, path, wpos, out) } } )*
+				$( $idx => {
+					if path == "get_mut" { gm_case!($gm, $ty, b, d, wpos, out) }
+					else if path == "into_iter" { it_case!($it, $ty, b, d, false, out) }
+					else if path == "into_iter_first" { it_case!($it, $ty, b, d, true, out) }
+					else { run_path::<$ty>(b, d, path, wpos, out) }
+				} )*
 				t => panic!("type {t}"),
 			}
 		}
@@ -462,44 +489,48 @@ macro_rules! gm_case {
 	(y, $ty:ty, $b:ident, $d:ident, $w:ident, $o:ident) => { run_get_mut::<$ty>($b, $d, $w, $o) };
 	(n, $ty:ty, $b:ident, $d:ident, $w:ident, $o:ident) => { panic!("no get_mut for this type") };
 }
+macro_rules! it_case {
+	(i, $ty:ty, $b:ident, $d:ident, $h:expr, $o:ident) => { run_into_iter::<$ty>($b, $d, $h, $o) };
+	(x, $ty:ty, $b:ident, $d:ident, $h:expr, $o:ident) => { panic!("no by-value iterator for this type") };
+}
 macro_rules! gm_flag {
 	(y) => { true };
 	(n) => { false };
 }
 
 table! {
-	0 y M;
-	1 y R;
-	2 y P<M>;
-	3 y P<R>;
-	4 y Ow<Vec<M>>;
-	5 y Rt<Box<[R]>>;
-	6 n Bx<Vec<M>>;
-	7 n Bx<[M; 5]>;
-	8 y Ow<[P<R>; 3]>;
-	9 y Rt<(M, R, P<M>, M, R, M, R)>;
-	10 n Bx<(M, R, M, R, M)>;
-	11 y Ow<(M, R, P<R>, M, R, M)>;
-	12 n Bx<Vec<[M; 2]>>;
-	13 y Rt<[Vec<R>; 2]>;
-	14 y Ow<(Vec<M>, [R; 2], P<M>)>;
-	15 n Bx<[(M, R); 3]>;
-	16 y P<Ow<Vec<M>>>;
-	17 n P<Bx<(M, R)>>;
-	18 y P<Rt<[M; 2]>>;
-	19 n Bx<(Ow<Vec<M>>, M)>;
-	20 n Ow<Vec<Bx<(M, R)>>>;
-	21 y Rt<[Rt<Vec<M>>; 2]>;
-	22 y Ow<Box<[(P<M>, Ow<[R; 2]>)]>>;
-	23 n Bx<(Bx<Vec<M>>, Rt<(R, M)>, P<Bx<[M; 2]>>)>;
-	24 y Ow<(P<Ow<(M, P<R>)>>, Vec<P<M>>)>;
-	25 n Rt<Vec<Bx<Box<[R]>>>>;
-	26 y Ow<[[M; 2]; 2]>;
-	27 y Rt<(Vec<Vec<M>>, Box<[Box<[R]>]>)>;
-	28 y Ow<[M; 0]>;
-	29 n Bx<(M,)>;
-	30 y Ow<[M; 7]>;
-	31 y P<P<M>>;
+	0 y x M;
+	1 y x R;
+	2 y x P<M>;
+	3 y x P<R>;
+	4 y i Ow<Vec<M>>;
+	5 y i Rt<Box<[R]>>;
+	6 n i Bx<Vec<M>>;
+	7 n i Bx<[M; 5]>;
+	8 y i Ow<[P<R>; 3]>;
+	9 y x Rt<(M, R, P<M>, M, R, M, R)>;
+	10 n x Bx<(M, R, M, R, M)>;
+	11 y x Ow<(M, R, P<R>, M, R, M)>;
+	12 n i Bx<Vec<[M; 2]>>;
+	13 y i Rt<[Vec<R>; 2]>;
+	14 y x Ow<(Vec<M>, [R; 2], P<M>)>;
+	15 n x Bx<[(M, R); 3]>;
+	16 y x P<Ow<Vec<M>>>;
+	17 n x P<Bx<(M, R)>>;
+	18 y x P<Rt<[M; 2]>>;
+	19 n x Bx<(Ow<Vec<M>>, M)>;
+	20 n i Ow<Vec<Bx<(M, R)>>>;
+	21 y i Rt<[Rt<Vec<M>>; 2]>;
+	22 y x Ow<Box<[(P<M>, Ow<[R; 2]>)]>>;
+	23 n x Bx<(Bx<Vec<M>>, Rt<(R, M)>, P<Bx<[M; 2]>>)>;
+	24 y x Ow<(P<Ow<(M, P<R>)>>, Vec<P<M>>)>;
+	25 n i Rt<Vec<Bx<Box<[R]>>>>;
+	26 y i Ow<[[M; 2]; 2]>;
+	27 y x Rt<(Vec<Vec<M>>, Box<[Box<[R]>]>)>;
+	28 y i Ow<[M; 0]>;
+	29 n x Bx<(M,)>;
+	30 y i Ow<[M; 7]>;
+	31 y x P<P<M>>;
 }
 
 pub fn run(line: &str) -> String {
